@@ -144,8 +144,11 @@ def build_jobs(ctx, rng):
             if f == "savi":
                 p = {"soil_factor": rng.choice([1.0, 0.5, 0.0, -0.5])}
             add(f, f, p, H, W, rng.choice(["float32", "float64", "uint8", "uint16", "int32"]), "float", independent=True)
-        add("true_color", "true_color", {"nodata": 1}, H, W, rng.choice(["float64", "uint16"]), "float",
+        # true_color: always one float raster with NaN cells (nan-aware global min/max) and one integer raster
+        add("true_color", "true_color", {"nodata": 1}, H, W, rng.choice(["float64", "float32"]), "float",
             geo="unit", independent=True)
+        add("true_color", "true_color", {"nodata": rng.choice([0, 1, 3])}, H, W, rng.choice(["uint16", "uint8", "int32"]),
+            "int", geo="unit", independent=True)
         add("perlin", "perlin", {"freq": [1, 2], "seed": rng.randrange(100)}, H, W, "float32", "float")
         add("generate_terrain", "generate_terrain", {"seed": rng.randrange(100), "zfactor": 4000}, H, W, "float32",
             "float", geo="unit")
